@@ -16,7 +16,7 @@ from typing import Any, Dict, List
 
 from hypothesis import strategies as st
 
-from .. import drive_api, gen, model
+from .. import drive_api, e2e, gen, model
 from ..engine_common import engine_case, history_classes
 from ..runner import Outcome
 
@@ -39,7 +39,7 @@ VARIANTS = ["plain", "plain", "overspend", "overspend_refill", "liquidate_later"
 
 
 def budget(tier: str) -> Dict[str, Any]:
-    return {"shards": 16, "examples": 1500 if tier == "quick" else 25000}
+    return {"shards": 16, "examples": 1500 if tier == "quick" else 25000, "examples2": 8 if tier == "quick" else 150}
 
 
 def _slack_at(txs: List[model.Tx], us: int) -> Fraction:
@@ -173,7 +173,22 @@ def coverage_violations(out: Outcome, txs: List[model.Tx], fractions: List[Dict[
                 return
 
 
+E2E_HIST = gen.GenCfg(min_steps=4, max_steps=14, max_exchanges=2, max_holders=2, tie_prob=0.25, bulk_prob=0.03)
+
+
+def strategy2(tier: str) -> Any:
+    """End-to-end tier (rp2v/e2e.py): multi-asset files through the console entry point; the same predicate is applied to
+    figures read back from rp2_full_report.ods and related to the generated rows by unique id."""
+    return e2e.file_strategy(E2E_HIST, countries=("us", "us", "generic", "ie"), flavours=("mixed", "mixed", "fully_sold"))
+
+
+def minimize(case: Dict[str, Any], clause: str) -> Dict[str, Any]:
+    return e2e.minimize(case, clause, evaluate) if case.get("e2e") else case
+
+
 def evaluate(case: Dict[str, Any]) -> Outcome:
+    if case.get("e2e"):
+        return e2e.evaluate_assets(case, "c02e", lambda out, asset, txs, dump, schedule: coverage_violations(out, txs, dump["fractions"]), failure_is_violation=("accounting_engine.py", "abstract_accounting_method.py", "tax_engine.py", "gain_loss.py", "gain_loss_set.py", "plugin/accounting_method/"))
     out = Outcome()
     txs = model.make_txs(case["rows"])
     out.classes |= history_classes(txs, case["schedule"])
